@@ -407,6 +407,12 @@ func vfC09Gen(rt *rapid.T) vfC09Case {
 					// ... and a misbehaving one answers it twice
 					c.Steps = append(c.Steps, vfC09Step{Kind: 0, Cmds: []vfC09Cmd{{Kind: vfC09KEmpty, Kind2: -1}}, Frame: frames})
 				}
+				if rapid.SampledFrom([]int{0, 0, 1}).Draw(rt, "pongAfterTimeoutCheck") == 1 {
+					// ... or answers once more after the server's pong-timeout check ran (ping + 4 s) and before the
+					// next ping (ping + 5 s): the oracle counts ping frames, so either side of the boundary is judged right
+					c.Steps = append(c.Steps, vfC09Step{Kind: 2, Adv: rapid.SampledFrom([]int{3, 3, 4, 2}).Draw(rt, "advPastPongCheck")})
+					c.Steps = append(c.Steps, vfC09Step{Kind: 0, Cmds: []vfC09Cmd{{Kind: vfC09KEmpty, Kind2: -1}}, Frame: frames})
+				}
 			}
 		}
 	}
